@@ -240,6 +240,47 @@ def check_capture_sizes(ctx):
                     "fed": json.loads(lines[3]).get("fed")})
 
 
+def check_capture_sizes_http(ctx):
+    """Byte accounting over the HTTP family's conversations (HTTP/1 with pipelining and all body
+    framings, HTTP/2 scripts, h2c upgrades): for each half, the capture sizes of all its messages
+    (items and matcher residue) plus what is still unread in its progress counter equal the bytes
+    delivered."""
+    try:
+        import importlib
+        from fam import http as H
+        C03 = importlib.import_module("props.C03")
+        C04 = importlib.import_module("props.C04")
+    except Exception as ex:
+        ctx.note("HTTP family not available for the byte accounting: %s" % ex)
+        return
+    saved = ctx.rng
+    ctx.rng = vlib.random.Random(ctx.seed * 7 + 20)
+    try:
+        cases = [c for c, m in C03.gen_cases(ctx) if m["kind"] in ("random", "minimal-request", "witness-chunked-request")][: (120 if ctx.tier == "quick" else 1500)]
+        h2 = [(c, m) for c, m in C04.gen_cases(ctx) if not m["kind"].startswith("cap")]
+        cases += [c for c, m in h2 if m.get("mode") == "h2c"][: (30 if ctx.tier == "quick" else 300)]
+        cases += [c for c, m in h2 if m.get("mode") != "h2c"][: (70 if ctx.tier == "quick" else 800)]
+    finally:
+        ctx.rng = saved
+    for i, c in enumerate(cases):
+        c["id"] = i
+        c["bodylimit"] = 1
+        c.pop("wantoracle", None)
+    res = H.run_cases(ctx, cases, batch=40)
+    reported = 0
+    for c in cases:
+        r = res.get(c["id"]) or {}
+        cap = r.get("cap")
+        if not cap or r.get("timeout") or r.get("c", {}).get("outcome") != "ok" or r.get("s", {}).get("outcome") != "ok":
+            continue
+        ctx.count_case(("capture-http", json.dumps(c, sort_keys=True)[:2000]), len(r.get("items") or []) >= 1, "capture-size-" + c.get("kind", "?") + ("-h2c" if (c.get("h2") or {}).get("mode") == "h2c" else ""))
+        if (cap[0] + cap[2] != r["nc"] or cap[1] + cap[3] != r["ns"]) and reported < 2:
+            reported += 1
+            ctx.violation({"kind": "capture-size-http", "case": c, "client": {"delivered": r["nc"], "request_capture_sizes": cap[0], "unread_in_progress": cap[2]},
+                           "server": {"delivered": r["ns"], "response_capture_sizes": cap[1], "unread_in_progress": cap[3]},
+                           "how": "vh-http run (case on stdin)"})
+
+
 def search_model_counterexample(ctx):
     """The source-derived reset/inc programs no longer satisfy the theorem's side conditions:
     search the regenerated model for a schedule that loses or double-counts an event."""
@@ -270,6 +311,7 @@ def run(ctx):
     check_progress(ctx, base_ok)
     check_stats(ctx, base_ok)
     check_capture_sizes(ctx)
+    check_capture_sizes_http(ctx)
     if "Api/StatsTie.v" in failed and base_ok:
         cx = search_model_counterexample(ctx)
         if cx:
